@@ -10,10 +10,11 @@ package main
 import (
 	"bytes"
 	"crypto/tls"
+	"encoding/json"
 	"fmt"
 	"math/rand"
-	"net/http/httptest"
 	"net/http"
+	"net/http/httptest"
 	"net/url"
 	"sort"
 	"strconv"
@@ -696,6 +697,188 @@ func main() {
 		}
 	}
 
+	// 2b'. alternation `{a,b}` and backslash escapes in host keys THROUGH Table.Lookup (own random
+	// stream).  Both are glob syntax of gobwas/glob and outside the Coq glob model, so the class is
+	// judged on the Go side, by brute force over the routes and with gobwas/glob's own verdict on
+	// the normalised key / host (lower case, default port of the connection removed): a route is a
+	// candidate when its key is empty or matches (glob matching disabled: equals) the host and the
+	// request path starts with its path; the expected route is the candidate of the best rank
+	// (host without glob syntax > pattern > host-less) with the longest path.  Every table has at
+	// most one matching pattern key, so the expectation is unique.
+	{
+		rb := rand.New(rand.NewSource(run.Seed*7919 + 8))
+		norm := func(h string, tls bool) string {
+			if !tls && strings.HasSuffix(h, ":80") {
+				h = h[:len(h)-3]
+			} else if tls && strings.HasSuffix(h, ":443") {
+				h = h[:len(h)-4]
+			}
+			return strings.ToLower(h)
+		}
+		isPattern := func(k string) bool { return strings.ContainsAny(k, "*?[{\\") }
+		focuses := []string{"shop.example.com", "www.example.com", "a.foo.com", "eu-api.b.x"}
+		others := []string{"blog", "zz", "x1", "m"}
+		paths := []string{"/", "/foo", "/foo/bar"}
+		uris := []string{"/", "/foo/x", "/foo/bar/baz", "/x", "/foo"}
+		nb := run.Scale(260, 4000)
+		checked, byPattern, overExact, noRoute, failed := 0, 0, 0, 0, 0
+		for i := 0; i < nb; i++ {
+			h := focuses[rb.Intn(len(focuses))]
+			dot := strings.IndexByte(h, '.')
+			l0, rest := h[:dot], h[dot+1:]
+			o := others[rb.Intn(len(others))]
+			var pat string
+			switch rb.Intn(11) {
+			case 0:
+				pat = "{" + l0 + "," + o + "}." + rest
+			case 1:
+				pat = "{" + o + "," + l0 + "}." + rest
+			case 2: // alternation in a later label
+				d2 := strings.IndexByte(rest, '.')
+				pat = l0 + ".{" + o + "," + rest[:d2] + "}" + rest[d2:]
+			case 3: // escaped dots
+				pat = strings.ReplaceAll(h, ".", "\\.")
+			case 4: // an escaped letter
+				k := rb.Intn(len(h))
+				pat = h[:k] + "\\" + h[k:]
+			case 5: // whole names as alternatives
+				pat = "{" + o + "." + rest + "," + h + "}"
+			case 6: // alternation and escape together
+				pat = "{" + o + "," + l0 + "}\\." + rest
+			case 7: // three alternatives, one of them the empty string
+				pat = l0 + "{,-" + o + ",x}." + rest
+			case 8: // an alternative with a wildcard: has '*' too
+				pat = "{*." + rest + "," + o + "}"
+			case 9: // an escaped metacharacter that must stay literal: matches only the literal name
+				pat = "\\*." + rest
+			default: // two alternations
+				d2 := strings.IndexByte(rest, '.')
+				pat = "{" + l0 + "," + o + "}.{" + rest[:d2] + "," + o + "}" + rest[d2:]
+			}
+			tls := rb.Intn(5) == 0
+			if rb.Intn(5) == 0 {
+				pat += map[bool]string{false: ":80", true: ":443"}[tls]
+			}
+			if rb.Intn(5) == 0 {
+				pat = strings.ToUpper(pat[:len(pat)/2]) + pat[len(pat)/2:]
+			}
+			seen := map[string]bool{}
+			var defs []def
+			add := func(k string, ps ...string) {
+				for _, p := range ps {
+					if id := strings.ToLower(k) + " " + p; !seen[id] {
+						seen[id] = true
+						defs = append(defs, def{k, p})
+					}
+				}
+			}
+			add(pat, paths[rb.Intn(len(paths))])
+			if rb.Intn(2) == 0 {
+				add(pat, paths[rb.Intn(len(paths))])
+			}
+			if rb.Intn(3) == 0 { // the exact host, often without a route for every path
+				add(h, paths[rb.Intn(len(paths))])
+			}
+			if rb.Intn(2) == 0 { // host-less catch-all
+				add("", paths[rb.Intn(2)])
+			}
+			if rb.Intn(2) == 0 { // decoys that do not match the focus host
+				add([]string{"{" + o + ",yy}." + rest, "yy\\." + rest, o + "." + rest, "{" + l0 + "}.other.org", "*.example.org"}[rb.Intn(5)], "/")
+			}
+			rb.Shuffle(len(defs), func(a, b int) { defs[a], defs[b] = defs[b], defs[a] })
+			rh := h
+			if rb.Intn(6) == 0 {
+				rh = o + "." + rest
+			}
+			if rb.Intn(3) == 0 {
+				rh = randCase(rb, rh)
+			}
+			if rb.Intn(4) == 0 {
+				rh += map[bool]string{false: ":80", true: ":443"}[tls]
+			}
+			rq := request{rh, tls, uris[rb.Intn(len(uris))]}
+			off := rb.Intn(8) == 0
+			t, text, err := buildTable(defs)
+			if err != nil {
+				run.Exclude("route.NewTable rejected a table with alternation / escape host keys")
+				continue
+			}
+			// the oracle
+			nh := norm(rq.Host, rq.TLS)
+			best, bestRank, matchingPatterns, broken := -1, -1, map[string]bool{}, false
+			for id, d := range defs {
+				rank := 0
+				if d.Host != "" {
+					key := strings.ToLower(d.Host) // addRoute lower-cases the key
+					if _, present := t[key]; !present {
+						broken = true
+					}
+					nk := norm(key, rq.TLS)
+					if off {
+						if nk != nh {
+							continue
+						}
+						rank = 2
+					} else {
+						g, gerr := glob.Compile(nk)
+						if gerr != nil {
+							broken = true
+							continue
+						}
+						if !g.Match(nh) {
+							continue
+						}
+						rank = 2
+						if isPattern(key) {
+							rank = 1
+							matchingPatterns[key] = true
+						}
+					}
+				}
+				if !strings.HasPrefix(rq.URI, d.Path) {
+					continue
+				}
+				if rank > bestRank || rank == bestRank && len(d.Path) > len(defs[best].Path) {
+					best, bestRank = id, rank
+				}
+			}
+			if broken || len(matchingPatterns) > 1 {
+				run.Exclude("alternation / escape host key not stored as written, or two matching pattern keys")
+				continue
+			}
+			id, panicked, pval := lookupImpl(t, rq, 0, off)
+			checked++
+			switch {
+			case best < 0:
+				noRoute++
+			case bestRank == 1:
+				byPattern++
+			case bestRank == 2 && len(matchingPatterns) == 1:
+				overExact++
+			}
+			if panicked || id != best {
+				sel, want := "nil", "nil"
+				if id >= 0 && id < len(defs) {
+					sel = defs[id].Host + defs[id].Path
+				}
+				if best >= 0 {
+					want = defs[best].Host + defs[best].Path
+				}
+				if failed++; failed > 5 {
+					continue
+				}
+				run.Violation(-1, fmt.Sprintf("alternation/escape host pattern: Table.Lookup selected %s, expected %s (the most specific candidate by gobwas/glob's own verdict on the host keys)", sel, want),
+					map[string]interface{}{"table": strings.Split(strings.TrimSpace(text), "\n"), "host": rq.Host, "tls": rq.TLS, "path": rq.URI, "glob_disabled": off, "panicked": panicked, "panic": fmt.Sprint(pval)})
+			}
+		}
+		if checked < nb/2 || byPattern < nb/5 || overExact < 3 || noRoute < 3 {
+			run.Violation(-1, "alternation/escape host class lost its subject: too few cases answered by a pattern key / by the exact host next to a matching pattern / by nil",
+				map[string]int{"checked": checked, "by_pattern": byPattern, "exact_over_pattern": overExact, "no_route": noRoute})
+		}
+		run.Notes["alternation_escape_lookup_cases_checked"] = checked
+		run.Notes["alternation_escape_answered_by_pattern_key"] = byPattern
+	}
+
 	// 2c. Table.LookupHost (TCP/SNI routing): exact key, path "/", prefix matcher
 	for i := 0; i < run.Scale(120, 3000); i++ {
 		defs, focus, _, tport := genTable(r)
@@ -779,7 +962,9 @@ func main() {
 			return "(" + strings.Join([]string{vh.N(c.kind), vh.HxS(c.svc), vh.HxS(c.src), vh.HxS(c.dst),
 				"(" + vh.N(c.wk) + ", " + vh.N(c.wd) + ")", vh.List(tags)}, ", ") + ")"
 		}
-		addCmdCase := func(class string, cmds []cmd, rq request, m int, globOff bool) {
+		// custom: the same commands handed to route.NewTableCustom as a RouteDef list that went
+		// through JSON, as the custom registry backend receives it (registry/custom/custom.go)
+		addCmdCase := func(class string, cmds []cmd, rq request, m int, globOff bool, custom bool) {
 			for _, c := range cmds {
 				if c.src == "" {
 					continue
@@ -799,7 +984,32 @@ func main() {
 				lines[i], items[i] = text(c), coqCmd(c)
 			}
 			sample := map[string]interface{}{"commands": lines, "host": rq.Host, "tls": rq.TLS, "path": rq.URI, "matcher": matcherNames[m], "glob_disabled": globOff}
-			t, err := route.NewTable(bytes.NewBufferString(strings.Join(lines, "\n") + "\n"))
+			var t route.Table
+			var err error
+			ctor := "CCmdLookup"
+			if custom {
+				ctor = "CCustomLookup"
+				sample["constructor"] = "route.NewTableCustom"
+				var ptrs []*route.RouteDef
+				if ptrs, err = route.Parse(bytes.NewBufferString(strings.Join(lines, "\n") + "\n")); err == nil {
+					ds := make([]route.RouteDef, len(ptrs))
+					for i, p := range ptrs {
+						ds[i] = *p
+					}
+					var viaJSON []route.RouteDef
+					js, jerr := json.Marshal(ds)
+					if jerr == nil {
+						jerr = json.Unmarshal(js, &viaJSON)
+					}
+					if jerr != nil || len(viaJSON) != len(ds) {
+						run.Exclude("command list does not survive JSON")
+						return
+					}
+					t, err = route.NewTableCustom(&viaJSON)
+				}
+			} else {
+				t, err = route.NewTable(bytes.NewBufferString(strings.Join(lines, "\n") + "\n"))
+			}
 			impl := vh.Err(0)
 			if err == nil {
 				req := &http.Request{Method: "GET", Host: rq.Host, URL: &url.URL{Path: rq.URI}, Header: http.Header{}}
@@ -833,87 +1043,92 @@ func main() {
 			} else {
 				sample["newtable_error"] = err.Error()
 			}
-			run.Add(class, vh.App("CCmdLookup", vh.List(items), vh.HxS(rq.Host), vh.Bool(rq.TLS), vh.HxS(rq.URI), vh.N(m), vh.Bool(globOff), impl), sample)
+			run.Add(class, vh.App(ctor, vh.List(items), vh.HxS(rq.Host), vh.Bool(rq.TLS), vh.HxS(rq.URI), vh.N(m), vh.Bool(globOff), impl), sample)
 		}
 		svcs := []string{"sa", "sb", "sc"}
 		tagsets := [][]string{nil, nil, {"a"}, {"b"}, {"a", "b"}}
-		for i := 0; i < run.Scale(260, 8000); i++ {
-			focus := randHost(r)
-			base := pathBases[r.Intn(len(pathBases))]
-			tport := []string{"", "", "", ":80"}[r.Intn(4)]
-			var cmds []cmd
-			var srcs []string
-			nk := 1 + r.Intn(3)
-			for k := 0; k < nk; k++ {
-				key := keyFor(r, focus, tport)
-				if r.Intn(3) == 0 {
-					key = focus
-				}
-				for _, p := range append(pathsFor(r, base, 1+r.Intn(3)), "/") {
-					if r.Intn(4) == 0 {
-						continue
+		genCmdCases := func(r *rand.Rand, n int, prefix string, custom bool) {
+			for i := 0; i < n; i++ {
+				focus := randHost(r)
+				base := pathBases[r.Intn(len(pathBases))]
+				tport := []string{"", "", "", ":80"}[r.Intn(4)]
+				var cmds []cmd
+				var srcs []string
+				nk := 1 + r.Intn(3)
+				for k := 0; k < nk; k++ {
+					key := keyFor(r, focus, tport)
+					if r.Intn(3) == 0 {
+						key = focus
 					}
-					src := key + p
-					srcs = append(srcs, src)
-					cmds = append(cmds, cmd{kind: 0, svc: svcs[r.Intn(len(svcs))], src: src, dst: fmt.Sprintf("http://u%d.internal:80/", len(cmds)), tags: tagsets[r.Intn(len(tagsets))]})
+					for _, p := range append(pathsFor(r, base, 1+r.Intn(3)), "/") {
+						if r.Intn(4) == 0 {
+							continue
+						}
+						src := key + p
+						srcs = append(srcs, src)
+						cmds = append(cmds, cmd{kind: 0, svc: svcs[r.Intn(len(svcs))], src: src, dst: fmt.Sprintf("http://u%d.internal:80/", len(cmds)), tags: tagsets[r.Intn(len(tagsets))]})
+					}
 				}
-			}
-			if len(srcs) == 0 {
-				continue
-			}
-			mixed := func(src string) string { // the host part in another letter case
-				i := strings.IndexByte(src, '/')
-				if i < 0 {
-					i = len(src)
+				if len(srcs) == 0 {
+					continue
 				}
-				switch r.Intn(3) {
-				case 0:
-					return strings.ToUpper(src[:i]) + src[i:]
-				case 1:
-					return randCase(r, src[:i]) + src[i:]
+				mixed := func(src string) string { // the host part in another letter case
+					i := strings.IndexByte(src, '/')
+					if i < 0 {
+						i = len(src)
+					}
+					switch r.Intn(3) {
+					case 0:
+						return strings.ToUpper(src[:i]) + src[i:]
+					case 1:
+						return randCase(r, src[:i]) + src[i:]
+					}
+					return src
 				}
-				return src
-			}
-			nd := 1 + r.Intn(3)
-			for k := 0; k < nd; k++ {
-				victim := cmds[r.Intn(len(cmds))]
-				for victim.kind != 0 {
-					victim = cmds[r.Intn(len(cmds))]
+				nd := 1 + r.Intn(3)
+				for k := 0; k < nd; k++ {
+					victim := cmds[r.Intn(len(cmds))]
+					for victim.kind != 0 {
+						victim = cmds[r.Intn(len(cmds))]
+					}
+					switch r.Intn(8) {
+					case 0, 1, 2:
+						cmds = append(cmds, cmd{kind: 1, svc: victim.svc, src: mixed(victim.src)})
+					case 3:
+						cmds = append(cmds, cmd{kind: 1, svc: victim.svc, src: mixed(victim.src), dst: victim.dst})
+					case 4:
+						cmds = append(cmds, cmd{kind: 1, svc: victim.svc})
+					case 5:
+						cmds = append(cmds, cmd{kind: 1, svc: []string{"", victim.svc}[r.Intn(2)], tags: [][]string{{"a"}, {"b"}, {"a", "b"}}[r.Intn(3)]})
+					case 6:
+						cmds = append(cmds, cmd{kind: 2, svc: victim.svc, src: mixed(victim.src), wk: 1 + r.Intn(9), wd: 1, tags: victim.tags})
+					default:
+						cmds = append(cmds, cmd{kind: 2, src: mixed(victim.src), wk: 25, wd: 2, tags: []string{"a"}})
+					}
+					if r.Intn(3) == 0 {
+						cmds = append(cmds, cmd{kind: 0, svc: svcs[r.Intn(len(svcs))], src: mixed(srcs[r.Intn(len(srcs))]), dst: fmt.Sprintf("http://u%d.internal:80/", len(cmds))})
+					}
 				}
-				switch r.Intn(8) {
-				case 0, 1, 2:
-					cmds = append(cmds, cmd{kind: 1, svc: victim.svc, src: mixed(victim.src)})
-				case 3:
-					cmds = append(cmds, cmd{kind: 1, svc: victim.svc, src: mixed(victim.src), dst: victim.dst})
-				case 4:
-					cmds = append(cmds, cmd{kind: 1, svc: victim.svc})
-				case 5:
-					cmds = append(cmds, cmd{kind: 1, svc: []string{"", victim.svc}[r.Intn(2)], tags: [][]string{{"a"}, {"b"}, {"a", "b"}}[r.Intn(3)]})
-				case 6:
-					cmds = append(cmds, cmd{kind: 2, svc: victim.svc, src: mixed(victim.src), wk: 1 + r.Intn(9), wd: 1, tags: victim.tags})
-				default:
-					cmds = append(cmds, cmd{kind: 2, src: mixed(victim.src), wk: 25, wd: 2, tags: []string{"a"}})
-				}
-				if r.Intn(3) == 0 {
-					cmds = append(cmds, cmd{kind: 0, svc: svcs[r.Intn(len(svcs))], src: mixed(srcs[r.Intn(len(srcs))]), dst: fmt.Sprintf("http://u%d.internal:80/", len(cmds))})
-				}
-			}
-			for q := 0; q < 3; q++ {
-				rq := genRequest(r, focus, base, tport)
-				if q == 0 { // under the path of a route that a del named
-					for _, c := range cmds {
-						if c.kind == 1 && c.src != "" {
-							if j := strings.IndexByte(c.src, '/'); j >= 0 {
-								rq.URI = c.src[j:] + []string{"", "/x"}[r.Intn(2)]
-								rq.Host = focus + tport
+				for q := 0; q < 3; q++ {
+					rq := genRequest(r, focus, base, tport)
+					if q == 0 { // under the path of a route that a del named
+						for _, c := range cmds {
+							if c.kind == 1 && c.src != "" {
+								if j := strings.IndexByte(c.src, '/'); j >= 0 {
+									rq.URI = c.src[j:] + []string{"", "/x"}[r.Intn(2)]
+									rq.Host = focus + tport
+								}
 							}
 						}
 					}
+					m := []int{0, 0, 1, 2}[r.Intn(4)]
+					addCmdCase(prefix+matcherNames[m], cmds, rq, m, r.Intn(5) == 0, custom)
 				}
-				m := []int{0, 0, 1, 2}[r.Intn(4)]
-				addCmdCase("commands/"+matcherNames[m], cmds, rq, m, r.Intn(5) == 0)
 			}
 		}
+		genCmdCases(r, run.Scale(260, 8000), "commands/", false)
+		// 2e'. the same kind of command sequences (own random stream) through route.NewTableCustom
+		genCmdCases(rand.New(rand.NewSource(run.Seed*7523+11)), run.Scale(110, 3000), "commands-custom/", true)
 		// directed: the last target of the longest route is deleted through a mixed-case host
 		for _, withFallback := range []bool{false, true} {
 			cmds := []cmd{{kind: 0, svc: "sa", src: "shop.example.com/api", dst: "http://u0.internal:80/"},
@@ -923,7 +1138,22 @@ func main() {
 			}
 			for _, del := range []cmd{{kind: 1, svc: "sa", src: "Shop.example.com/api"}, {kind: 1, svc: "sa", src: "SHOP.EXAMPLE.COM/api", dst: "http://u0.internal:80/"}, {kind: 1, svc: "sa", src: "shop.example.com/api"}} {
 				for m := 0; m < 3; m++ {
-					addCmdCase("commands/directed-del-mixed-case", append(append([]cmd(nil), cmds...), del), request{"shop.example.com", false, "/api/v1"}, m, m == 1)
+					addCmdCase("commands/directed-del-mixed-case", append(append([]cmd(nil), cmds...), del), request{"shop.example.com", false, "/api/v1"}, m, m == 1, false)
+				}
+			}
+		}
+		// directed, through NewTableCustom: the last target of the longest route is deleted by
+		// service / service+src / service+src+dst / tags, with and without a host-less or wildcard fallback
+		for _, fallback := range []string{"", "/", "*.example.com/"} {
+			cmds := []cmd{{kind: 0, svc: "site", src: "shop.example.com/", dst: "http://u0.internal:80/"},
+				{kind: 0, svc: "api-v1", src: "shop.example.com/api", dst: "http://u1.internal:80/", tags: []string{"a"}}}
+			if fallback != "" {
+				cmds = append(cmds, cmd{kind: 0, svc: "sc", src: fallback, dst: "http://u2.internal:80/"})
+			}
+			for _, del := range []cmd{{kind: 1, svc: "api-v1"}, {kind: 1, svc: "api-v1", src: "Shop.example.com/api"},
+				{kind: 1, svc: "api-v1", src: "shop.example.com/api", dst: "http://u1.internal:80/"}, {kind: 1, tags: []string{"a"}}} {
+				for m, uri := range []string{"/api/users", "/api", "/apiary"} {
+					addCmdCase("commands-custom/directed-del", append(append([]cmd(nil), cmds...), del), request{"shop.example.com", false, uri}, m, false, true)
 				}
 			}
 		}
